@@ -11,8 +11,11 @@ CFG = {
                           "RpmVerif.C17.build_args_total_partial", "RpmVerif.C17.build_args_can_panic",
                           "RpmVerif.C17.with_file_total", "RpmVerif.C17.with_file_mtime_err_iff", "RpmVerif.C17.with_file_outcomes",
                           "RpmVerif.C17.setters_total", "RpmVerif.C17.build_calls_total",
-                          "RpmVerif.C17.default_level_in_range", "RpmVerif.C17.default_of_every_type", "RpmVerif.C17.default_is_some_variant"],
-    "trivial_branches": ["bad-start", "ts:unrepresentable", "meta"],
+                          "RpmVerif.C17.default_level_in_range", "RpmVerif.C17.default_of_every_type", "RpmVerif.C17.default_is_some_variant",
+                          "RpmVerif.C17.step_total", "RpmVerif.C17.run_total", "RpmVerif.C17.build_total", "RpmVerif.C17.build_and_sign_total",
+                          "RpmVerif.C17.build_total_needs_clock", "RpmVerif.C17.comp_variant_table",
+                          "RpmVerif.C17.run_keeps_threshold", "RpmVerif.C17.large_file_switch", "RpmVerif.C17.build_ok_is_model_build"],
+    "trivial_branches": ["bad-start", "ts:unrepresentable", "meta:nul"],
     "rule": "ALL destinations over the alphabet {'/', '.', 'a'} up to length 8 (quick, 9 841 strings) / 11 (thorough, 265 720), all token strings over "
             "{'/', '.', '..', 'a', 'b.c'} up to 5 / 7 tokens, the former panic witnesses, long (5 000-byte names, 2 000 levels, 3 000 slashes), multi-byte, "
             "NUL-containing and blank destinations, 2·10^4 / 3·10^5 seeded token strings; each through PackageBuilder::with_file → build → write → parse "
@@ -22,7 +25,7 @@ CFG = {
             "child (`level`: ok | err | panic | abort | corrupt). source_date and add_changelog_entry with u32 / SystemTime / DateTime<Utc> / "
             "DateTime<FixedOffset> at −1 ns, 0, 2^31, 2^32−1(+0.999999999), 2^32, chrono MIN/MAX, i64 extremes, ±40 / ±2000 s windows and seeded instants "
             "(`tsset`). Capability text: all strings of up to 3 / 4 tokens over {cap_chown, cap_kill, all, cap_bogus, ',', '=', '+', '-', e, i, p, x, ' '} plus "
-            "17 hand-picked ones (`capsset`, setter vs FileCaps::from_str). 20 metadata strings through every string setter (`meta`). "
+            "17 hand-picked ones (`capsset`, setter vs FileCaps::from_str). 20 metadata strings through every string setter, epoch, all nine scriptlet setters (from &str / String / Scriptlet with flags and interpreter), all eight dependency setters (through eight constructors), a changelog entry and a file owner / group / link, built through build (even length) or build_and_sign (odd), written, re-parsed and read back field by field (`meta`: `ok rt=all` or the fields that did not come back; a text with a NUL comes back cut and is not predicted). "
             "`wfile`: one FileOptions::new(dest).<setters> chain + with_file on a source the harness prepares — a regular file, a symbolic link to one, a FIFO (fed by "
             "a thread), a directory, a missing path; 14 permission words incl. set-uid / set-gid / sticky / 0 / 0o7777 (and random 12-bit words); 16 modification times "
             "from −2^31 s over −1 ns, 0, 2^31, 2^32−1(+0.999999999 s), 2^32 to 1.5·10^10 s (set with futimens, read back before use); 49 option chains (every is_* setter, "
@@ -32,7 +35,7 @@ CFG = {
             "(io | TimestampConv | InvalidDestinationPath | InvalidCapabilities) or the read-back mode word, cpio c_mode, mtime, flags, owner, group, link, caps, verify "
             "flags, size. `leveld`: compression(CompressionType::T) for every T and no compression() call at all (also on the build without bzip2), observing "
             "PAYLOADCOMPRESSOR / PAYLOADFLAGS. A case is trivial when "
-            "the destination does not start with '/' or './', when a timestamp value cannot be constructed, or a `meta` case; distinct = distinct request lines",
+            "the destination does not start with '/' or './', when a timestamp value cannot be constructed, or a `meta` text containing a NUL; distinct = distinct request lines",
     "exhaustive": True,
     "shards": {"quick": 4, "thorough": 16},
     "trusted_base": ["Unix std::path (components, parent, file_name, strip_prefix, join) is modelled on byte strings (Model/Path.lean) and compared function by "
@@ -45,7 +48,8 @@ CFG = {
     "assumptions": COMMON_ASSUME + [
         "a destination is a Rust String, i.e. valid UTF-8, so to_string_lossy is the identity on its '/'-separated pieces",
         "for the destination / layout / level ops the source file given to with_file exists and is readable; `wfile` lifts this (missing path, directory, FIFO)",
-        "build() steps that do not depend on the enumerated arguments (Timestamp::now(), the 4 GiB size expect) are outside this property's quantifier",
+        "build_total's provisos: the system clock inside 1970..2106 (Timestamp::now() unwraps; the hook pins the clock to a u32, so this site is model-only: "
+        "build_total_needs_clock), the codec crates do not panic, fewer than 2^32 − 1 files and 2^64 content bytes, the large-file limit at most u32::MAX",
     ],
     "level_text": "Theorems for ALL destination byte strings of any length: add_data never panics (add_data_total), it accepts exactly the destinations that "
                   "start with '/' or './' and read d/name followed only by separators and '/.' pieces with name a real file name "
@@ -59,7 +63,13 @@ CFG = {
                   "or from 2106-02-07T06:28:16Z on — tested before the destination — and Ok exactly for readable + in-range + splittable (with_file_mtime_err_iff, "
                   "with_file_outcomes). Every default level of From<CompressionType> passes the range check of its variant, every type has an arm that keeps the type, "
                   "and CompressionWithLevel::default() is, for every combination of cargo features, a variant with an accepted level whose codec is compiled in "
-                  "(default_level_in_range, default_of_every_type, default_is_some_variant; tables scraped from compressor.rs / Cargo.toml). PARTIAL: build_args_total_partial needs the hypothesis that no out-of-range instant reaches "
+                  "(default_level_in_range, default_of_every_type, default_is_some_variant; tables scraped from compressor.rs / Cargo.toml). The WHOLE build is a function into ok | err | panic (Model/PrepareData.lean: Build.run over every metadata / scriptlet / dependency / changelog setter, source_date, "
+                  "with_file; Build.prepareData / build / buildAndSign with one explicit outcome for every `?`, unwrap, expect, checked `+=` / `*` and narrowing cast of prepare_data, "
+                  "create_region_tag and Timestamp::now): step_total / run_total — no call panics except the two timestamp conversions; build_total — new(..).<any calls>.build() never "
+                  "panics provided no out-of-range instant reaches a timestamp setter, the clock is inside 1970..2106, the codecs do not panic, fewer than 2^32 − 1 files / 2^64 bytes are "
+                  "added and the large-file limit is at most u32::MAX; the sites `position(..).unwrap()` and the two `expect`s are unreachable because every call sequence leaves each "
+                  "file's directory registered and size = content length (Build.Inv); large_file_switch: after any call sequence uses_large_files is exactly 'the CONTENTS sum to more than u32::MAX bytes' and otherwise the combined size and every single size fit a u32; build_ok_is_model_build: an Ok of build() into an all-accepting compressor is Bld.build (the total model of C06 – C09) with Cpio.builderArchive / builderArchiveLarge as the archive; build_and_sign_total adds the signer; build_total_needs_clock: with the clock outside 1970..2106 the "
+                  "plainest build panics (model-only site). PARTIAL: build_args_total_partial needs the hypothesis that no out-of-range instant reaches "
                   "source_date / add_changelog_entry; those setters unwrap the conversion and panic exactly outside 0 ≤ t < 2^32 "
                   "(timestamp_setter_panics_iff, build_args_can_panic) — known finding class timestamp-setter-panic. The model is tied to the code by the "
                   "exhaustive destination enumeration, the per-function std::path comparison, the level sweep in child processes and boundary timestamps.",
